@@ -164,6 +164,12 @@ def run_case(ctx, alg, kind, path, how, form, verify_with, placement, extras, pn
             vs.append(viol(f"reference recovers a different payload: {tag}", f"{p2[:40]!r}"))
     except (RefError, ValueError, KeyError) as e:
         vs.append(viol(f"independent verifier rejects joserfc's token: {tag}", f"{ctxs}: {e!r} token={str(token)[:300]}"))
+    # ---- the token as it comes off the wire: text, octets, or a receive buffer
+    if isinstance(token, str) and verify_with == "public":
+        for tname, tval in (("bytes", token.encode()), ("bytearray", bytearray(token.encode()))):
+            c3 = scen.jws_consume(p_path, tval, vpub, [alg], payload=detached_payload)
+            if not c3.ok or c3.value[0] != payload:
+                vs.append(viol(f"own output does not verify when the token is given as {tname}: {tag}", f"{ctxs}: {c3.exc!r}"))
     # ---- the two-step API on a batch: extract this token, extract an unrelated one, then validate this one
     if path in ("compact", "7797-compact") and isinstance(token, str) and detached_payload is None:
         from joserfc import jws, rfc7797
@@ -276,19 +282,22 @@ def h_multi_signer(ctx):
     n = ctx.choose("signers", [2, 3])
     combo = ctx.choose("algs", list(itertools.combinations(range(len(SIGNERS)), n)))
     supplied = ctx.choose("keys_supplied_as", ["key set", "callable returning a key per member", "callable returning the key set"])
-    kid_pos = ctx.choose("kid_position", ["protected", "unprotected"])
-    pname, payload = ctx.choose("payload", payloads()[:5])
+    # each member names alg and kid in the protected header, splits them, or has no protected header at all (RFC 7520 4.8) - in every order
+    kinds = ctx.choose("member_kinds", list(itertools.product(["protected", "split", "unprotected-only"], repeat=n)))
+    kid_pos = "/".join(kinds)
+    pname, payload = ctx.choose("payload", payloads()[:5] if all(k == "protected" for k in kinds) else payloads()[3:5])
     members, privs, pubs, jwks = [], [], [], []
     for j, i in enumerate(combo):
         alg, kind = SIGNERS[i]
         jwk = scen.key(kind, j)
         kid = f"signer-{j}"
-        hdr_p, hdr_u = {"alg": alg}, None
-        if kid_pos == "protected":
-            hdr_p["kid"] = kid
+        if kinds[j] == "protected":
+            hdr_p, hdr_u = {"alg": alg, "kid": kid}, None
+        elif kinds[j] == "split":
+            hdr_p, hdr_u = {"alg": alg}, {"kid": kid}
         else:
-            hdr_u = {"kid": kid}
-        members.append({"protected": hdr_p, **({"header": hdr_u} if hdr_u else {})})
+            hdr_p, hdr_u = None, {"alg": alg, "kid": kid}
+        members.append({**({"protected": hdr_p} if hdr_p else {}), **({"header": hdr_u} if hdr_u else {})})
         privs.append(A.jkey({**jwk, "kid": kid}, "dict"))
         pubs.append(A.jkey({**(jwk if jwk["kty"] == "oct" else rjwk.public_of(jwk)), "kid": kid}, "dict"))
         jwks.append(jwk)
@@ -319,9 +328,53 @@ def h_multi_signer(ctx):
         c = call(jws.deserialize_json, copy.deepcopy(tok), arg(pubs), algorithms=algs)
         if not c.ok:
             vs.append(viol(f"own multi-signer general JSON does not verify ({supplied})", f"{what}: {c.exc!r}"))
-        elif c.value.payload != payload or [m.headers() for m in c.value.members] != [{**g["protected"], **g.get("header", {})} for g in given]:
+        elif c.value.payload != payload or [m.headers() for m in c.value.members] != [{**g.get("protected", {}), **g.get("header", {})} for g in given]:
             vs.append(viol("multi-signer general JSON round trip changes payload or headers", what))
     return Outcome(f"multi:{'ok' if not vs else 'bad'}", vs, nontrivial=(combo, supplied, kid_pos, pname))
+
+
+# ------------------------------------------------------------------ allow-lists the caller keeps and changes
+def h_callers_list(ctx):
+    """The caller passes its own list object as algorithms=, later changes the list in place, and calls again: every call is governed by
+    what its list holds at that moment, and by nothing an earlier call saw."""
+    from joserfc import jws
+    from joserfc.errors import UnsupportedAlgorithmError
+    a1, k1 = ctx.choose("first_alg", [("ES384", "P-384"), ("HS512", "oct64"), ("PS256", "rsa")])
+    a2, k2 = ctx.choose("second_alg", [("PS384", "rsa"), ("HS384", "oct48"), ("ES256K", "secp256k1")])
+    path = ctx.choose("path", ["compact", "flattened", "general"])
+    change = ctx.choose("list_changed_by", ["item assignment", "clear+append", "append"])
+    L = [a1]
+    key1, key2 = A.jkey(scen.key(k1), "dict"), A.jkey(scen.key(k2), "dict")
+    vs = []
+
+    def rt(alg, key, allow):
+        r = scen.jws_produce(path, {"alg": alg}, None, b"payload", key, allow)
+        if not r.ok:
+            return r
+        return scen.jws_consume(path, r.value, key, allow)
+    steps = [("first call, algorithms=L=[%s]" % a1, a1, key1, L, True)]
+    r = rt(a1, key1, L)
+    if not r.ok:
+        vs.append(viol("round trip with the caller's allow-list fails", f"{steps[0][0]}: {r.exc!r}"))
+    if change == "item assignment":
+        L[0] = a2
+    elif change == "clear+append":
+        L.clear()
+        L.append(a2)
+    else:
+        L.append(a2)
+    now = list(L)
+    for desc, alg, key, allow in ((f"fresh list [{a1}] after L became {now}", a1, key1, [a1]), (f"L itself, now {now}, alg {a2}", a2, key2, L),
+                                  (f"L itself, now {now}, alg {a1}", a1, key1, L), (f"fresh list [{a2}]", a2, key2, [a2])):
+        r = rt(alg, key, allow)
+        want = alg in allow
+        if want and not r.ok:
+            vs.append(viol("a call with an allow-list that holds the algorithm fails after the caller changed a list it had passed before", f"{desc} ({path}): {r.exc!r}"))
+        elif not want and r.ok:
+            vs.append(viol("a call succeeds with an algorithm its allow-list no longer holds", f"{desc} ({path})"))
+        elif not want and not isinstance(r.exc, UnsupportedAlgorithmError):
+            vs.append(viol("a disallowed algorithm is not reported as unsupported-algorithm", f"{desc} ({path}): {r.exc!r}"))
+    return Outcome(f"callers-list:{'ok' if not vs else 'bad'}", vs, nontrivial=(a1, a2, path, change))
 
 
 # ------------------------------------------------------------------ keys that declare what they are for
@@ -469,7 +522,10 @@ def h_threads(ctx, directions=None):
 _p2 = Part("ecdsa-leading-zero", h_ecdsa_lz, split_depth=1)
 _p3 = Part("general-multi-signer", h_multi_signer, split_depth=2)
 _p3.single_bucket_ok = True
+_pc = Part("callers-allow-list-changed-between-calls", h_callers_list, split_depth=2)
+_pc.single_bucket_ok = True
 PARTS = [
+    _pc,
     Part("keys-declaring-their-operation", h_declared, split_depth=2),
     Part("thread-schedules", h_threads, bound={"quick": 1, "thorough": 2}, split_depth=3, budget={"quick": 2000, "thorough": 3000}, engine="E3"),
     Part("roundtrip", h_roundtrip, bound={"quick": 0, "thorough": 0}, split_depth=2, budget={"quick": 1200, "thorough": 1500}),
